@@ -9,8 +9,9 @@ import time
 VERIF = os.environ.get("VERIF_ROOT", "/verif")
 
 
-def load_known_findings() -> list[dict]:
-    p = os.path.join(VERIF, "known_findings.json")
+def load_known_findings(prop: str) -> list[dict]:
+    """known_findings/<prop>.json — committed, read-only at run time."""
+    p = os.path.join(VERIF, "known_findings", f"{prop}.json")
     if not os.path.exists(p):
         return []
     return json.load(open(p))["findings"]
@@ -30,7 +31,7 @@ class Run:
         self.assumptions: list[str] = []
         self.coq: dict = {}
         self.exhaustive = False
-        self.findings = [f for f in load_known_findings() if f["property"] == prop]
+        self.findings = [f for f in load_known_findings(prop) if f["property"] == prop]
         self.open_classes = {f["class"]: f for f in self.findings if f.get("status") == "open"}
 
     # ---- counting ----
